@@ -126,7 +126,7 @@ Definition good_env (e : env) := src_active e && dst_usable e && gate_ok e && ma
 Definition healed (x : item) := is_y (dst_state x) && wants_ok x && obytes_eqb (dst_disk x) (Some Good) && negb (rstate_eqb (req x) Pending)
                                 && is_y (src_has x) && obytes_eqb (src_disk x) (Some Good).
 Definition pre_transfer (i : item) := safe i && is_y (src_has i) && obytes_eqb (src_disk i) (Some Good) && rstate_eqb (req i) Pending
-                                      && match dst_row i with Some (_, WN) => false | _ => true end.
+                                      && match dst_row i with Some (h, WN) => is_n h | _ => true end.      (* not a copy whose deletion is still owed; a removed and released row is the normal state after a deletion *)
 Definition all_crash_states e b i := dst_trace e b i ++ [dst_round e b i].
 Definition f_recover (i : item) : bool := if pre_transfer i then forallb (fun e => if good_env e then forallb (fun b =>
    forallb (fun j => healed (rounds 3 e j)) (all_crash_states e b i)) all_beh else true) all_env else true.
